@@ -19,7 +19,7 @@ COMPONENTS = {"real": ["ECAgent.Core.SystemManager.execute_systems (activation p
                        "Model.timestep forwarding"],
               "stub": ["System.execute bodies are harness recorders"]}
 PROBES = ["fired_at_end", "silent_after_end", "negative_start", "end_before_start", "late_registration_out_of_phase",
-          "late_registration_in_phase", "bad_n_rejected", "freq_beyond_horizon", "bare_execute_systems"]
+          "late_registration_in_phase", "bad_n_rejected", "freq_beyond_horizon", "bare_execute_systems", "reregistered_after_removal"]
 TECHNIQUE = "deterministic simulation: model clock stepped through the real scheduler vs a reference timer wheel and a single-stepped twin model"
 LEVEL_TEXT = ("Seeded search over timer windows, registration instants and advance patterns; every firing of every timestep is "
               "compared with the predicate start<=t<=end and (t-start)%f==0, the clock with the count of accepted steps, "
@@ -65,8 +65,20 @@ def generate(rng, tier):
     t = 0
     while t < horizon:
         r = rng.random()
-        if pending and r < 0.25:
+        if pending and r < 0.2:
             ops.append({"op": "add", "k": pending.pop()})
+        elif r < 0.27:
+            k = rng.randrange(n)
+            ops.append({"op": "remove", "k": k})
+            if rng.random() < 0.7:
+                # re-registered later, sometimes with another window under the same id
+                ops.append({"op": "adv", "n": rng.randint(1, 4)})
+                t += ops[-1]["n"]
+                alt = None
+                if rng.random() < 0.6:
+                    alt = {"start": rng.choice([0, 1, 2, t, t - 3, -2]), "end": rng.choice([MAXSIZE, t + rng.randint(0, 10)]),
+                           "freq": rng.choice([1, 2, 3, 4, 5])}
+                ops.append({"op": "add", "k": k, "window": alt})
         elif r < 0.35:
             ops.append({"op": "bad", "v": rng.choice(sorted(BAD))})
         elif r < 0.45:
@@ -94,6 +106,7 @@ def execute(sc, ctx):
     ref = RefSched()
     systems = sc["systems"]
     fired = {}
+    removed = set()
     late = False
     advs = []
 
@@ -141,8 +154,12 @@ def execute(sc, ctx):
             if not systems:
                 continue
             spec = spec_defaults(systems[op["k"] % len(systems)])
+            if op.get("window"):
+                spec.update(op["window"])
             if ref.has(spec["id"]):
                 continue
+            if spec["id"] in removed:
+                ctx.probe("reregistered_after_removal")
             if spec["freq"] < 1:
                 continue
             ctx.expect_ok("add", m.systems.add_system, Rec(spec, m, w))
@@ -159,6 +176,17 @@ def execute(sc, ctx):
                 late = True
                 ctx.probe("late_registration_in_phase" if (ref.t - spec["start"]) % spec["freq"] == 0
                           else "late_registration_out_of_phase")
+        elif kind == "remove":
+            if not systems:
+                continue
+            sid = systems[op["k"] % len(systems)]["id"]
+            if not ref.has(sid):
+                continue
+            ctx.expect_ok("remove", m.systems.remove_system, sid)
+            ctx.expect_ok("remove-twin", twin.systems.remove_system, sid)
+            ref.remove(sid)
+            removed.add(sid)
+            ctx.event("remove", sid, ref.t)
         elif kind == "adv":
             n = max(1, min(int(op["n"]), 10))
             if ref.t + n > 200:
